@@ -32,9 +32,22 @@ Print Assumptions ttl_manager_is_clamp.
 
 Theorem answer_cache_floor_and_ceiling :
   (min_cache_ttl = 5 * 1000000000 /\ max_cache_ttl = 24 * 3600 * 1000000000) /\
-  (cache_max_ttl_src = [ascii_dnsutil_max] /\ cache_min_ttl_src = [ascii_dnsutil_min] /\ positive_cache_bounds_src = [ascii_min_max]).
+  (cache_max_ttl = max_cache_ttl /\ cache_min_ttl = min_cache_ttl).
 Proof. exact (conj gen_cache_bounds gen_cache_bounds_src). Qed.
 Print Assumptions answer_cache_floor_and_ceiling.
+
+(* resolver.minNonZero and resolver.minCut, translated from the source on every run, are the model's *)
+Theorem minNonZero_is_model : forall a b, nz a -> nz b -> go_minNonZero (ot a) (ot b) = ot (min_nonzero a b).
+Proof. exact gen_minNonZero. Qed.
+Print Assumptions minNonZero_is_model.
+
+Theorem minCut_is_model : forall (kf : zone -> N) a b ka kb,
+  nz (cut_time a) -> nz (cut_time b) ->
+  (forall t z, a = Some (t, z) -> ka = kf z) -> (forall t z, b = Some (t, z) -> kb = kf z) ->
+  let r := go_minCut (ot (cut_time a)) ka (ot (cut_time b)) kb in
+  fst r = ot (cut_time (min_cut a b)) /\ (forall t z, min_cut a b = Some (t, z) -> snd r = kf z).
+Proof. exact gen_minCut. Qed.
+Print Assumptions minCut_is_model.
 
 (* ---- lease_def: what an uncached descent stores, and that a Get after it misses *)
 
@@ -51,6 +64,40 @@ Theorem lease_def : forall fx st i r rs, plain_miss st i r rs ->
         if fx then Z.min base (r_obs r + max_ttl) else base).
 Proof. exact lease_def_lemma. Qed.
 Print Assumptions lease_def.
+
+(* the same with provisional NS-lookup entries in play: the final store replaces them; if it is skipped
+   (deadline already past on the cache's clock) what is left under the key is the old entry or a provisional
+   one, and a provisional entry ends within the inherited deadline and within one minute of its own store *)
+Theorem lease_def_with_provisional : forall fx st i r rs, miss_with_provisional st i r rs ->
+  let cd := child_deadline fx rs r in
+  let lin := mk_lrec (r_zone r) (r_obs r) (lease_ttl r) cd :: rs_lin rs in
+  st_dc (process_delegation fx st i r) (r_zone r) =
+    (if cd <=? r_store r then provisional (st_dc st) (r_zone r) (r_srv r) lin cd (r_prov r) (r_zone r)
+     else Some (mk_deleg (Z.min cd (r_store r + max_ttl)) (r_srv r) lin)).
+Proof. exact lease_def_general. Qed.
+Print Assumptions lease_def_with_provisional.
+
+Theorem provisional_entry_bounded : forall ps c z srv lin cd k d,
+  provisional c z srv lin cd ps k = Some d ->
+  c k = Some d \/ (k = z /\ d_exp d <= cd /\ (exists tn tc, In (tn, tc) ps /\ d_exp d <= tn + provisional_cap /\ tc < d_exp d)).
+Proof. exact provisional_cases_cap. Qed.
+Print Assumptions provisional_entry_bounded.
+
+(* a referral racing a cached descent: when another resolution has stored the delegation meanwhile, nothing
+   is written and the descent (and the request tree) keeps the SHORTER of the cached lease and the deadline
+   of the referral just observed *)
+Theorem racing_referral_keeps_shorter_deadline : forall fx st i r rs cached,
+  st_rs st i = Some rs ->
+  valid_referral (r_coherent r) (r_zone r) (rs_zone rs) (rs_q rs) = true ->
+  r_valid r = true -> r_pdet r = false ->
+  dc_get (st_dc st) (r_get r) (r_zone r) = Some cached ->
+  let st' := process_delegation fx st i r in
+  st_dc st' = st_dc st /\
+  exists rs', st_rs st' i = Some rs' /\ rs_zone rs' = r_zone r /\ rs_srv rs' = d_srv cached /\
+              cut_time (rs_cut rs') = Some (Z.min (child_deadline fx rs r) (d_exp cached)) /\
+              cut_le (mt_cut (st_meta st' (rs_tree rs))) (Z.min (child_deadline fx rs r) (d_exp cached)).
+Proof. exact cached_branch_lemma. Qed.
+Print Assumptions racing_referral_keeps_shorter_deadline.
 
 Theorem lease_within_every_limit : forall fx st i r rs d, plain_miss st i r rs ->
   st_dc (process_delegation fx st i r) (r_zone r) = Some d -> st_dc st (r_zone r) <> Some d ->
